@@ -693,12 +693,12 @@ def signature(call, b, x, flags) -> str:
     lazy_ok = flags[1] == "1"
     if not lazy_ok:
         return "C15/table-or-connection-touched-before-execute"
-    if "sql" in feats and (berr or xerr):
-        return SIG_SQL
     if "unq" in feats and berr == "EValue":
         return SIG_UNQ
     if "alias" in feats and xerr == "EParser":
         return SIG_ALIAS
+    if "sql" in feats and (berr or xerr):
+        return SIG_SQL
     wk = call["where"]["kind"]
     return f"C15/{call['kind']}-differs:where={wk}:build={berr}:exec={xerr}:features={'+'.join(sorted(feats)) or 'none'}"
 
